@@ -56,7 +56,7 @@ fn position_of(b: &[u8], at: usize) -> Position {
 
 fn put_ascii(buf: &mut [u8], at: usize) {
     let b: u8 = kani::any();
-    kani::assume(matches!(b, b'a' | b'9' | b' ' | b'\n' | b'.'));
+    kani::assume(matches!(b, b'a' | b'9' | b' ' | b'\n' | b'\r' | b'.'));
     buf[at] = b;
 }
 
@@ -78,7 +78,7 @@ fn check(b: &[u8]) {
 
 // @props C11 C06
 // @fns FormatContext::new (line_offsets), FormatContext::source_slice
-// @bound ASCII sources of 5 bytes over {a, 9, space, LF, .}: every region [a, e) on character boundaries, spans computed as the lexer reports them
+// @bound ASCII sources of 5 bytes over {a, 9, space, LF, CR, .}: every region [a, e) on character boundaries, spans computed as the lexer reports them
 // @assume spans are (line = LF count, column = per-character increment of the lexer) of the region's ends, which is what C09 establishes for token spans
 #[kani::proof]
 #[kani::unwind(8)]
@@ -96,7 +96,7 @@ fn c11_source_slice_ascii() {
 // Known finding F13 partition: a character whose UTF-8 length differs from its column increment precedes the region on its line.
 // @props C11
 // @fns FormatContext::new (line_offsets), FormatContext::source_slice
-// @bound sources "U+00E9 c c c" and "U+5B57 c c" with c over {a, 9, space, LF, .}: regions behind the multi-byte character
+// @bound sources "U+00E9 c c c" and "U+5B57 c c" with c over {a, 9, space, LF, CR, .}: regions behind the multi-byte character
 #[kani::proof]
 #[kani::unwind(8)]
 #[kani::stub(std::hash::RandomState::new, stub_random_state)]
